@@ -238,10 +238,20 @@ def where_classes(ast, out=None):
         return out
     if ast[0] == "where":
         assigned = set()
-        secs, sums = [], []
+        secs, sums, elems = [], [], []
+
+        def scal_arrays(x):
+            if isinstance(x, list) and x:
+                if x[0] in ("idx1", "idx2"):
+                    elems.append(x[1])
+                for y in x[1:]:
+                    scal_arrays(y)
 
         def walk(x):
             if isinstance(x, list) and x:
+                if x[0] == "scal":
+                    scal_arrays(x[1])
+                    return
                 if x[0] == "wa":
                     assigned.add(x[1])
                     secs.append((None, x[2][1:]))
@@ -258,6 +268,8 @@ def where_classes(ast, out=None):
             out.add("C01-where-reduction-reevaluated")
         if any(sec[2] not in ("none", 1) for _, sec in secs):
             out.add("C01-where-section-stride-ignored")
+        if any(a in assigned for a in elems):
+            out.add("C01-where-element-of-assigned-array")
         return out
     for y in ast:
         where_classes(y, out)
@@ -347,6 +359,25 @@ def run(chk):
     nprog = 1500 if thorough else 80
     nrun = 500 if thorough else 24
     rng = chk.rng
+
+    # corpus first: hand-written programs and minimised past failures
+    known_ids = {e["id"] for e in common.known_findings("C01")}
+    cdir = os.path.join(common.ROOT, "corpus", "C01")
+    ncorpus = 0
+    for fn in sorted(os.listdir(cdir)) if os.path.isdir(cdir) else []:
+        if not fn.endswith(".f90"):
+            continue
+        src = open(os.path.join(cdir, fn)).read()
+        v, d, out = property_on_source(src)
+        ncorpus += 1
+        chk.case({"corpus": fn}, nontrivial=True, agreed=(v == "pass"))
+        if v == "fail":
+            cls = text_classes(src)
+            if cls and cls <= known_ids:
+                continue
+            chk.violation({"kind": "failing-input", "corpus": fn, "source": src, "rewritten": out, "observed": d,
+                           "expected": "re-written program compiles and prints the same values as the original"})
+    chk.cov["corpus_programs"] = ncorpus
 
     programs = []
     for n in range(nprog):
